@@ -51,6 +51,9 @@ def build_world(patched=True):
     hw = pysym.HostWorld(patched=patched)
     dev = Devices()
     hw.devices = dev
+    hw.button_pins_seen = set()
+    hw.cur_samples = {}
+    hw.in_pass = False
 
     # ---- Utils.sleep -> delay event (after the real validation)
     U = hw.load("Reduino.Utils")
@@ -107,8 +110,7 @@ def build_world(patched=True):
         dev.servos.append(self)
         dev.servo_pins.add(pin_number(self.pin))
         eng().emit("servo_attach", pin_number(self.pin), self._min_pulse, self._max_pulse)
-        # the device parks the horn at the minimum pulse when it attaches (host state: angle=min, pulse=min)
-        eng().emit("servo_pulse", pin_number(self.pin), self._current_angle, self._current_pulse)
+
 
     def Sv_w(self, angle):
         sv_w(self, angle)
@@ -131,8 +133,7 @@ def build_world(patched=True):
     def M_init(self, *a, **k):
         m_init(self, *a, **k)
         dev.motor.append(tuple(pin_number(p) for p in self.pins))
-        # the device drives the bridge to a safe stop during setup (host state: mode coast, speed 0)
-        eng().emit("motor", tuple(pin_number(p) for p in self.pins), "coast", 0.0)
+
 
     def M_apply(self, speed):
         m_apply(self, speed)
@@ -202,9 +203,16 @@ def build_world(patched=True):
         p = pin_number(self.pin)
         dev.input_pins.add(p)
         dev.buttons.append(self)
-        # the firmware samples the pin once in setup(): consume that sample (index 0)
-        s0 = eng().new_input("dread", p, 32, 0, 1)
-        self._verif_initial = s0
+        if p not in hw.button_pins_seen:
+            hw.button_pins_seen.add(p)
+            if hw.in_pass:
+                # declared at the top of the loop body: the firmware samples it in every pass only
+                hw.cur_samples[p] = eng().new_input("dread", p, 32, 0, 1)
+            else:
+                # declared before the loop: the firmware also samples it once in setup() (index 0)
+                self._verif_initial = eng().new_input("dread", p, 32, 0, 1)
+        if hw.in_pass and p in hw.cur_samples:
+            self._pressed = (hw.cur_samples[p] == 1)
     Btn.__init__ = Btn_init
 
     # ---- Serial
@@ -241,10 +249,14 @@ def build_world(patched=True):
 def pass_start(hw):
     """Called at the top of every main-loop pass of the transformed script."""
     eng().emit("marker", "loop")
+    hw.in_pass = True
+    hw.cur_samples = {}
+    for p in sorted(hw.button_pins_seen):
+        hw.cur_samples[p] = eng().new_input("dread", p, 32, 0, 1)
     for b in hw.devices.buttons:
         p = pin_number(b.pin)
-        s = eng().new_input("dread", p, 32, 0, 1)
-        b._pressed = (s == 1)
+        if p in hw.cur_samples:
+            b._pressed = (hw.cur_samples[p] == 1)
 
 
 class _LoopRewriter(ast.NodeTransformer):
